@@ -172,6 +172,10 @@ def _produce(ctx, case):
                 # an id list may name a well more than once (concatenated lists): still the same subset
                 arg = list(ids) + [ids[0], ids[-1]]
                 ctx.count("id_list_with_repeated_wells")
+            if via == "ids" and len(ids) >= 1 and (len(ids) * 3 + rows + cols) % 6 == 0 and hasattr(np.dtypes, "StringDType"):
+                # the ids in a variable-width string array (NumPy 2: dtype "T", what np.strings functions return)
+                arg = np.array(ids, dtype="T")
+                ctx.count("id_array_with_variable_width_string_dtype")
             if via == "ids2d":
                 k = len(ids)
                 d = max((x for x in range(1, int(k ** 0.5) + 1) if k % x == 0), default=1) if k else 1
